@@ -132,6 +132,9 @@ def _sym(v: Sym):
             if isinstance(t, Sym) and t.fn == fn and t.recv is None:
                 for x in t.args:
                     flat(x)
+            elif isinstance(t, Sym) and t.fn in ("np.float64", "float", "np.float32", "int", "np.int64") and len(t.args) == 1 and not t.kw \
+                    and isinstance(t.args[0], (int, Fraction)) and not isinstance(t.args[0], bool) and t.args[0] == neutral:
+                pass   # a typed spelling of the neutral element
             elif not (isinstance(t, (int, Fraction)) and not isinstance(t, bool) and t == neutral):
                 parts.append(nf(t))
         flat(v)
